@@ -68,7 +68,16 @@ class Outer(ArrowSerializableDataclass):
     pts: list[Point] = field(default_factory=list)
 
 
-DATACLASSES: dict[str, type] = {"Point": Point, "Named": Named, "Outer": Outer}
+@dataclass(frozen=True)
+class Point3(Point):
+    """A dataclass extending another serializable dataclass (inherits x, y; adds fields of its own)."""
+
+    z: int = 0
+    tag: str = ""
+    weight: float | None = None
+
+
+DATACLASSES: dict[str, type] = {"Point": Point, "Named": Named, "Outer": Outer, "Point3": Point3}
 
 ARROW_TYPES: dict[str, tuple[type, pa.DataType]] = {
     "int8": (int, pa.int8()),
@@ -260,6 +269,10 @@ def gen_value(spec: Spec, rng: random.Random) -> Any:
     if k == "dc":
         if spec[1] == "Point":
             return Point(x=gen_value(("int",), rng), y=gen_value(("float",), rng))
+        if spec[1] == "Point3":
+            # the base class is serialised first in the same process (a derived class must not reuse anything cached for it)
+            Point(x=1, y=2.0).serialize_to_bytes()
+            return Point3(x=gen_value(("int",), rng), y=gen_value(("float",), rng), z=gen_value(("int",), rng), tag=gen_value(("str",), rng), weight=gen_value(("opt", ("float",)), rng))
         if spec[1] == "Named":
             return Named(
                 name=gen_value(("str",), rng),
